@@ -234,6 +234,37 @@ def cmp_guard(op, l: Rat, r: Rat) -> G:
     raise CannotDecide(f'comparison operator {type(op).__name__}')
 
 
+_SIGNS = {'<': {'-'}, '<=': {'-', '0'}, '==': {'0'}, '!=': {'-', '+'}}
+_FLIP = {'-': '+', '+': '-', '0': '0'}
+
+
+def sign_set(h: G, d: Rat):
+    """the set of signs of `d` allowed by cmp guard h, or None if h does not talk about +-d"""
+    if h.kind != 'cmp':
+        return None
+    if h.rat.eq(d):
+        return set(_SIGNS[h.key[0]])
+    if h.rat.eq(-d):
+        return {_FLIP[x] for x in _SIGNS[h.key[0]]}
+    return None
+
+
+def implies(guards, g: G) -> bool:
+    """conjunction `guards` syntactically/sign-lattice implies g"""
+    st = static_truth(g)
+    if st is not None:
+        return st
+    if g.kind == 'cmp':
+        allowed = sign_set(g, g.rat)
+        known = {'-', '0', '+'}
+        for h in guards:
+            hs = sign_set(h, g.rat)
+            if hs is not None:
+                known &= hs
+        return known <= allowed
+    return any(h.same(g) for h in guards)
+
+
 def static_truth(g: G):
     """True/False if a cmp guard is decidable on constants, else None"""
     if g.kind == 'cmp' and g.rat.is_const():
@@ -263,11 +294,24 @@ class State:
             return self
         if st is False:
             return None
-        for h in self.guards:
-            if h.same(g):
-                return self
-            if h.opposite(g):
+        if g.kind == 'cmp':
+            allowed = sign_set(g, g.rat)
+            known = {'-', '0', '+'}
+            for h in self.guards:
+                if h.kind == 'cmp':
+                    hs = sign_set(h, g.rat)
+                    if hs is not None:
+                        known &= hs
+            if not (known & allowed):
                 return None
+            if known <= allowed:
+                return self
+        else:
+            for h in self.guards:
+                if h.same(g):
+                    return self
+                if h.opposite(g):
+                    return None
         s = self.copy()
         s.guards = self.guards + (g,)
         return s
@@ -953,9 +997,16 @@ class SX:
                     return [(st, self.typed_atom(f'{obj.path}.{attr}', ty))]
                 outs = self.run(m.node, m.module, m.cls, obj, {}, st, frame['depth'] + 1)
                 res = []
+                ty = None
                 for o in outs:
                     if o.kind == 'return':
-                        res.append((o.state, o.value))
+                        v = o.value
+                        if isinstance(v, Dyn):
+                            # refine a value of unknown static type by the getter's return annotation
+                            if ty is None:
+                                ty = self.member_type(cls, attr)[0] or 'unknown'
+                            v = self.cast(v, ty)
+                        res.append((o.state, v))
                     elif o.kind == 'fall':
                         res.append((o.state, NoneV()))
                     else:
@@ -974,6 +1025,19 @@ class SX:
             return [(st, Fv(f'bound:{attr}'))]
         name = f'{obj.path}.{attr}'
         return [(st, self.typed_atom(name, ty, name))]
+
+    def cast(self, v: Dyn, ty):
+        if ty == 'num':
+            return N(v.term)
+        if isinstance(ty, tuple) and ty[0] == 'q':
+            t = v.term
+            sym = None
+            if len(t.n.t) == 1 and t.d.is_const():
+                (mono, c), = t.n.t.items()
+                if c == 1 and len(mono) == 1 and mono[0][1] == 1:
+                    sym = mono[0][0]
+            return Q(ty[1], t, U(sym=sym) if sym else None)
+        return v
 
     # ---- arithmetic
     def neg(self, v):
@@ -1092,6 +1156,12 @@ class SX:
             # gearpy's comparison dunders raise TypeError for a non-quantity operand
             return Outcome(st, 'raise', 'TypeError', n.lineno)
         if isinstance(op, (ast.Eq, ast.NotEq)):
+            if isinstance(l, NoneV) or isinstance(r, NoneV):
+                other = r if isinstance(l, NoneV) else l
+                if isinstance(other, NoneV):
+                    return Bv(not isinstance(op, ast.NotEq))
+                if isinstance(other, (Cv, Q, N, Sv, Bv, Tv)):
+                    return Bv(isinstance(op, ast.NotEq))
             if isinstance(l, Sv) and isinstance(r, Sv):
                 return Bv((l.s == r.s) != isinstance(op, ast.NotEq))
             if isinstance(l, Uv) and isinstance(r, Uv):
@@ -1346,6 +1416,12 @@ class SX:
             return [(st, N(Rat.atom(f'len({self.show(args[0])})'), 'int'))]
         if name == 'type' and len(args) == 1 and isinstance(args[0], Ov):
             return [(st, Cv(args[0].cls or '?', of=args[0].path))]
+        if name in m.functions and name in self.opaque_calls:
+            mod, fn = m.functions[name]
+            ty = parse_annotation(fn.returns, m)
+            bound = self.bind(fn, args, kwargs, skip_self=False)
+            sig = f'{name}(' + ', '.join(f'{k}={self.show(v)}' for k, v in sorted(bound.items())) + ')'
+            return [(st.with_effect(('opaque-call', name, args, kwargs, n.lineno)), self.typed_atom(sig, ty, sig))]
         if name in m.functions and name not in self.opaque_calls:
             mod, fn = m.functions[name]
             outs = self.run(fn, mod, None, None, self.bind(fn, args, kwargs, skip_self=False), st, frame['depth'] + 1)
